@@ -144,8 +144,30 @@ func r05_1(c *Ctx, rule string) {
 		c.ObErrChecked(rule+"/checked", call)
 		// reported with the delete kind and the change's path
 		a := call.Common().Args
-		_, k := eng.Strip(a[0]).(*ssa.Parameter)
-		_, p := eng.Strip(a[1]).(*ssa.Parameter)
+		// (through a delete helper: what its parameters stand for at the call in HandleChange)
+		isParamOf := func(v ssa.Value, name string) bool {
+			rs := eng.ResolveAll(v)
+			if len(rs) == 0 {
+				return false
+			}
+			for _, r := range rs {
+				q, ok := eng.Strip(r).(*ssa.Parameter)
+				if !ok || q.Parent() != hc || c.P.ParamName(q) != name {
+					return false
+				}
+			}
+			return true
+		}
+		k := isParamOf(a[0], "kind")
+		if kc, isC := a[0].(*ssa.Const); isC && !k {
+			// the delete arm may spell the kind out
+			if want, ok := c.P.NamedConstInt("fsutil", "ChangeKindDelete"); ok {
+				if got, isInt := eng.ConstInt(kc); isInt && got == want {
+					k = true
+				}
+			}
+		}
+		p := isParamOf(a[1], "p")
 		c.R.Check(k && p, rule, c.siteName(call)+"/args", c.pos(call), "reports (kind, p) of the change", "the delete notification does not report the change's kind and path")
 	}
 	c.R.Floor(rule, "direct notifications in HandleChange (delete arm)", n, 1)
